@@ -13,7 +13,7 @@ STEMS = ['Red', 'GreenLeaf', 'HTTPServer', 'Foo2Bar', 'XMLHttpRequest', 'A1', 's
          'IOError', 'Utf8', 'B2B', 'lower', 'UPPER', 'Mixed_Case_9', 'Silk', 'Iris', 'Disk', 'Ski', 'Sketch', 'Kiss']
 
 KINDS = [('unit', []), ('tuple', ['u8']), ('tuple', ['String', 'i32']), ('tuple', ['bool', 'u8', 'OptU8']),
-         ('named', ['i32']), ('named', ['u8', 'String']), ('named', ['String', 'bool', 'u8']), ('tuple', [])]
+         ('named', ['i32']), ('named', ['u8', 'String']), ('named', ['String', 'bool', 'u8']), ('tuple', []), ('named', [])]
 NAMINGS = ['none', 'ts', 'ser1', 'ser2', 'ser3', 'ser_ts', 'ser2_ts']
 FIELD_NAMES = ['alpha', 'beta', 'gamma']
 
@@ -238,7 +238,7 @@ def soup_variant(rng, k, stem_i, allow_empty, unit_only=False, display=False):
         v.dis = True
     if kind[0] == 'tuple' and len(kind[1]) == 1 and rng.random() < 0.3:
         v.dw = 'mk_%s_%s' % (kind[1][0].lower(), ident.lower())
-    if kind[0] == 'named' and rng.random() < 0.3:
+    if kind[0] == 'named' and kind[1] and rng.random() < 0.3:
         i = rng.randrange(len(kind[1]))
         v.fdw[i] = 'mk_%s_%s_%d' % (kind[1][i].lower(), ident.lower(), i)
     v.attr_layout = rng.choice(['one', 'split'])
